@@ -1,13 +1,18 @@
 #!/bin/bash
-# runs ./check all against every seeded change (scratch copy of /repo/src), prints a matrix
+# runs ./check all against every seeded change (scratch copy of /repo/src), prints a matrix.
+# uses its own build / evidence / replay directories so that it can run next to other checks
 cd /verif
+export VERIF_BUILD=/verif/.build/matrix VERIF_EVIDENCE=/verif/.build/matrix/evidence VERIF_REPLAYS=/verif/.build/matrix/replays
+mkdir -p $VERIF_BUILD
+S=/verif/.build/matrix/repo
 for d in seeded/*/; do
   n=$(basename $d); prop=${n%%_*}
-  rm -rf /tmp/scr && mkdir -p /tmp/scr && cp -r /repo/src /tmp/scr/src
-  if ! (cd /tmp/scr && patch -p1 -s < /verif/$d/patch.diff >/dev/null 2>&1); then echo "$n PATCH-FAILS"; continue; fi
-  out=$(VERIF_REPO=/tmp/scr ./check all 2>&1)
+  rm -rf $S && mkdir -p $S && cp -r /repo/src $S/src
+  if ! (cd $S && patch -p1 -s < /verif/$d/patch.diff >/dev/null 2>&1); then echo "$n PATCH-FAILS"; continue; fi
+  out=$(VERIF_REPO=$S ./check all 2>&1)
   viol=$(echo "$out" | grep -o 'VIOLATION property=C[0-9]*' | sed 's/VIOLATION property=//' | sort -u | tr '\n' ' ')
   und=$(echo "$out" | grep -E 'UNDECIDED property=all' | cut -c1-160)
-  own=$(echo "$viol" | grep -qw $prop && echo HIT || echo miss)
+  own=$(echo "$out" | grep -q "VIOLATION property=$prop " && echo HIT || echo miss)
   echo "$n | own=$own | violations: $viol | $und"
 done
+rm -rf $S
